@@ -16,6 +16,12 @@ Qed.
 Lemma take_whole (x : bstr) : take (length x) x = x.
 Proof. induction x as [|a x IH]; cbn; [reflexivity|]. rewrite IH. reflexivity. Qed.
 
+(* the block without blanks *)
+Lemma lit_name_sp_nil s : lit_name_sp [] s = lit_name s.
+Proof. reflexivity. Qed.
+Lemma cmd_ok_lit s : lit_closed s -> cmd_ok (lit_name s, s).
+Proof. intros H. right. exists []. split; [constructor|]. split; [reflexivity|exact H]. Qed.
+
 Section Lit.
 Variable uni_letter uni_digit : Z -> bool.
 Hypothesis letter_ascii : forall c, (c < 128)%N -> uni_letter (Z.of_N c) = ((65 <=? c) && (c <=? 90) || (97 <=? c) && (c <=? 122))%N.
@@ -57,18 +63,54 @@ Qed.
 Lemma span_tick l w s n : span l w s -> span (tick l n) w s.
 Proof. intros H. exact H. Qed.
 
-(* lexLiteral: "}" s "{/literal}" *)
-Lemma lex_literal_run l s rest : span l [] ([125%N] ++ s ++ literal_close1 ++ rest) -> l_dd l = false -> lit_closed s ->
+(* `for isSpace(ch) { ch = l.next() }` over a run of spaces and tabs that ends at "}" *)
+Lemma literal_space_run : forall sp w l rest f, Forall lit_blank sp -> span l w (sp ++ [125%N] ++ rest) -> (length sp < f)%nat ->
+  exists l1, span l1 (w ++ sp ++ [125%N]) rest /\ l_dd l1 = l_dd l /\ l_out l1 = l_out l /\
+    (forall c0 l0, next inp ilen l = Ok (c0, l0) ->
+       literal_space_loop inp ilen f c0 l0 = Ok (125, l1)).
+Proof.
+  induction sp as [|c sp IH]; intros w l rest f Hsp Hs Hf.
+  - cbn [app] in Hs. destruct (next_ascii inp l w 125%N rest Hs ltac:(lia)) as (Hn & Hs1).
+    exists (adv l). split; [exact Hs1|]. split; [reflexivity|]. split; [reflexivity|]. intros c0 l0 E. rewrite Hn in E. injection E as <- <-.
+    destruct f as [|f]; [cbn in Hf; lia|]. cbn [literal_space_loop]. reflexivity.
+  - inversion Hsp as [|? ? Hc Hsp']; subst. cbn [app] in Hs.
+    assert (Hc128 : (c < 128)%N) by (destruct Hc; subst; lia).
+    destruct (next_ascii inp l w c (sp ++ [125%N] ++ rest) Hs Hc128) as (Hn & Hs1).
+    destruct f as [|f]; [cbn in Hf; lia|].
+    destruct (IH (w ++ [c]) (adv l) rest f Hsp' Hs1 ltac:(cbn in Hf; lia)) as (l1 & Hs2 & Hd2 & Ho2 & Hrun).
+    exists l1. split; [rewrite <- app_assoc in Hs2; exact Hs2|]. split; [rewrite Hd2; reflexivity|]. split; [rewrite Ho2; reflexivity|].
+    intros c0 l0 E. rewrite Hn in E. injection E as <- <-. cbn [literal_space_loop].
+    assert (Hsp1 : gen_isSpace (Z.of_N c) = true) by (destruct Hc; subst; reflexivity). rewrite Hsp1.
+    destruct (next inp ilen (adv l)) as [[c1 l1']| | | | |] eqn:En; try (destruct sp; cbn [app] in Hs1;
+      [destruct (next_ascii inp (adv l) (w ++ [c]) 125%N rest Hs1 ltac:(lia)) as (Hn' & _)|
+       inversion Hsp' as [|? ? Hc' _]; subst; destruct (next_ascii inp (adv l) (w ++ [c]) _ _ Hs1 ltac:(destruct Hc'; subst; lia)) as (Hn' & _)];
+      rewrite Hn' in En; discriminate En).
+    cbn [bind]. apply Hrun. reflexivity.
+Qed.
+
+(* lexLiteral: blanks, "}" s "{/literal}" *)
+Lemma lex_literal_run l sp s rest : Forall lit_blank sp -> span l [] (sp ++ [125%N] ++ s ++ literal_close1 ++ rest) -> l_dd l = false -> lit_closed s ->
   exists l' p1 p2 p3 p4 p5, steps 1 LLiteral l = Ok (LText, l') /\ span l' [] rest /\
     l_out l' = {| t_typ := itemRightDelim; t_pos := p5; t_val := [125%N] |} :: {| t_typ := itemLiteralEnd; t_pos := p4; t_val := literal_end_kw |} ::
                {| t_typ := itemLeftDelim; t_pos := p3; t_val := [123%N] |} :: {| t_typ := itemText; t_pos := p2; t_val := s |} ::
-               {| t_typ := itemRightDelim; t_pos := p1; t_val := [125%N] |} :: l_out l /\
+               {| t_typ := itemRightDelim; t_pos := p1; t_val := sp ++ [125%N] |} :: l_out l /\
     l_last l' = {| t_typ := itemRightDelim; t_pos := p5; t_val := [125%N] |} /\ l_dd l' = false.
 Proof.
-  intros Hs Hdd Hcl.
-  destruct (next_ascii inp l [] 125%N (s ++ literal_close1 ++ rest) Hs ltac:(lia)) as (Hn & Hs1).
-  destruct (emit_span inp 0 itemRightDelim (adv l) [125%N] _ Hs1) as (He1 & Hs2). set (l3 := emitted 0 itemRightDelim (adv l) [125%N]) in *.
-  assert (Hdd3 : l_dd l3 = false) by (unfold l3, emitted, adv; cbn [l_dd]; exact Hdd).
+  intros Hsp Hs Hdd Hcl.
+  assert (Hfuel : forall c0 l0, next inp ilen l = Ok (c0, l0) -> (length sp < S (loop_fuel ilen l0))%nat).
+  { intros c0 l0 E. pose proof (span_bounds inp _ _ _ Hs) as (Hb0 & Hl0). rewrite !app_length in Hl0. cbn [length] in Hl0.
+    destruct sp as [|c sp']; [cbn [length]; lia|]. inversion Hsp as [|? ? Hc _]; subst. cbn [app] in Hs.
+    destruct (next_ascii inp l [] c _ Hs ltac:(destruct Hc; subst; lia)) as (Hn & _). rewrite Hn in E. injection E as _ <-.
+    unfold loop_fuel, adv. cbn [l_pos length] in *. lia. }
+  assert (Hnx : exists c0 l0, next inp ilen l = Ok (c0, l0)).
+  { destruct sp as [|c sp']; cbn [app] in Hs.
+    - destruct (next_ascii inp l [] 125%N _ Hs ltac:(lia)) as (Hn & _). eauto.
+    - inversion Hsp as [|? ? Hc _]; subst. destruct (next_ascii inp l [] c _ Hs ltac:(destruct Hc; subst; lia)) as (Hn & _). eauto. }
+  destruct Hnx as (c0 & l0 & Hn).
+  destruct (literal_space_run sp [] l (s ++ literal_close1 ++ rest) (S (loop_fuel ilen l0)) Hsp Hs (Hfuel _ _ Hn)) as (la & Hs1 & Hdda & Hoa & Hloop).
+  specialize (Hloop c0 l0 Hn). cbn [app] in Hs1.
+  destruct (emit_span inp 0 itemRightDelim la (sp ++ [125%N]) _ Hs1) as (He1 & Hs2). set (l3 := emitted 0 itemRightDelim la (sp ++ [125%N])) in *.
+  assert (Hdd3 : l_dd l3 = false) by (unfold l3, emitted; cbn [l_dd]; rewrite Hdda; exact Hdd).
   (* the rest of the input and the index of the closing tag *)
   pose proof (span_cur inp _ _ _ Hs2) as (Hp3 & Hd3). pose proof (span_bounds inp _ _ _ Hs2) as (Hb3 & Hl3).
   assert (Hsl : slice inp ilen (l_pos l3) ilen = Ok (s ++ literal_close1 ++ rest)).
@@ -91,32 +133,32 @@ Proof.
   pose proof (span_fwd inp l7 [] [125%N] _ Hs7'') as Hs8. cbn [app length] in Hs8.
   destruct (emit_span inp 0 itemRightDelim (set_pos l7 (l_pos l7 + 1)) [125%N] _ Hs8) as (He8 & Hs8').
   eexists _, _, _, _, _, _. split; [|split; [exact Hs8'|]].
-  - apply steps_one. cbn [step]. unfold lex_literal. rewrite Hn. cbn [bind].
-    assert (Hf : loop_fuel ilen (adv l) <> 0%nat) by (unfold loop_fuel; lia).
-    cbn [literal_space_loop]. change (gen_isSpace (Z.of_N 125)) with false. cbv iota. cbn [bind].
-    change (negb (Z.of_N 125 =? 125)) with false. cbv iota.
-    unfold double_close. cbn [adv l_dd]. rewrite Hdd. cbn [bind]. rewrite He1. cbn [bind]. fold l3. rewrite Hdd3, Hsl. cbn [bind].
+  - apply steps_one. cbn [step]. unfold lex_literal. rewrite Hn. cbn [bind]. rewrite Hloop. cbn [bind].
+    change (negb (125 =? 125)) with false. cbv iota.
+    unfold double_close. rewrite Hdda, Hdd. cbn [bind]. rewrite He1. cbn [bind]. fold l3. rewrite Hdd3, Hsl. cbn [bind].
     rewrite Hidx. fold l4. rewrite He5. cbn [bind]. fold l5. rewrite He6. cbn [bind]. fold l6. rewrite He7. cbn [bind]. fold l7. rewrite He8. reflexivity.
-  - unfold emitted, mktok, l7, l6, l5, l4, l3, tick, set_pos, adv. cbn [l_out l_last l_dd emitted mktok]. repeat split. exact Hdd.
+  - unfold emitted, mktok, l7, l6, l5, l4, l3, tick, set_pos. cbn [l_out l_last l_dd emitted mktok]. rewrite Hoa, Hdda. repeat split. exact Hdd.
 Qed.
 
 (* the whole block, from lexLeftDelim to the lexText after it *)
-Lemma lex_literal_cmd l s rest : span l [] ([123%N] ++ lit_name s ++ [125%N] ++ rest) -> lit_closed s ->
+Lemma lex_literal_cmd l sp s rest : Forall lit_blank sp -> span l [] ([123%N] ++ lit_name_sp sp s ++ [125%N] ++ rest) -> lit_closed s ->
   exists k l' ld kw rd tx ld2 ke rd2, steps k LLeftDelim l = Ok (LText, l') /\ span l' [] rest /\
     l_out l' = rd2 :: ke :: ld2 :: tx :: rd :: kw :: ld :: l_out l /\
     t_typ ld = itemLeftDelim /\ t_typ kw = itemLiteral /\ t_typ rd = itemRightDelim /\ t_typ tx = itemText /\ t_val tx = s /\
     t_typ ld2 = itemLeftDelim /\ t_typ ke = itemLiteralEnd /\ t_typ rd2 = itemRightDelim /\
     l_last l' = rd2 /\ t_val rd2 = [125%N] /\ l_dd l' = false.
 Proof.
-  intros Hs Hcl.
-  assert (E : [123%N] ++ lit_name s ++ [125%N] ++ rest = 123%N :: 108%N :: [105; 116; 101; 114; 97; 108]%N ++ [125%N] ++ s ++ literal_close1 ++ rest).
-  { unfold lit_name, lit_open_tail, lit_close_head, literal_close1. cbn [app]. do 9 f_equal. rewrite <- !app_assoc. reflexivity. }
+  intros Hsp Hs Hcl.
+  assert (E : [123%N] ++ lit_name_sp sp s ++ [125%N] ++ rest = 123%N :: 108%N :: [105; 116; 101; 114; 97; 108]%N ++ sp ++ [125%N] ++ s ++ literal_close1 ++ rest).
+  { unfold lit_name_sp, lit_word, lit_close_head, literal_close1. cbn [app]. do 8 f_equal. rewrite <- !app_assoc. cbn [app]. rewrite <- !app_assoc. reflexivity. }
   rewrite E in Hs.
   destruct (delim_begin uni_letter uni_digit letter_ascii digit_ascii letter_eof digit_eof inp l 108%N _ Hs ltac:(lia) ltac:(lia) ltac:(lia)) as (l1 & p1 & Hst1 & Hs1 & Ho1 & Hla1 & Hdd1).
   change (108 =? 92)%N with false in Hst1. cbv iota in Hst1.
-  assert (Hs1' : span l1 [] (w_literal ++ [125%N] ++ s ++ literal_close1 ++ rest)) by exact Hs1.
-  destruct (lex_word_literal l1 _ Hs1' ltac:(cbn; split; [lia|reflexivity])) as (l2 & Hst2 & Hs2 & (p2 & Ho2 & Hla2 & Hdd2)).
-  destruct (lex_literal_run l2 s rest Hs2 ltac:(congruence) Hcl) as (l3 & q1 & q2 & q3 & q4 & q5 & Hst3 & Hs3 & Ho3 & Hla3 & Hdd3).
+  assert (Hs1' : span l1 [] (w_literal ++ sp ++ [125%N] ++ s ++ literal_close1 ++ rest)) by exact Hs1.
+  assert (Hstop : stops (sp ++ [125%N] ++ s ++ literal_close1 ++ rest)).
+  { destruct sp as [|c sp']; [cbn; split; [lia|reflexivity]|]. inversion Hsp as [|? ? Hc _]; subst. destruct Hc; subst; cbn; split; (lia || reflexivity). }
+  destruct (lex_word_literal l1 _ Hs1' Hstop) as (l2 & Hst2 & Hs2 & (p2 & Ho2 & Hla2 & Hdd2)).
+  destruct (lex_literal_run l2 sp s rest Hsp Hs2 ltac:(congruence) Hcl) as (l3 & q1 & q2 & q3 & q4 & q5 & Hst3 & Hs3 & Ho3 & Hla3 & Hdd3).
   exists (2 + (2 + 1))%nat, l3. do 7 eexists. split.
   { rewrite (steps_app _ _ _ _ 2 _ _ _ _ _ Hst1), (steps_app _ _ _ _ 2 _ _ _ _ _ Hst2). exact Hst3. }
   split; [exact Hs3|]. split; [rewrite Ho3, Ho2, Ho1; reflexivity|]. cbn [t_typ t_val]. repeat split; assumption.
